@@ -149,6 +149,11 @@ def run(repo, run, tier):
     # (every sub-step evaluates the right-hand side once, at its own argument; no slope carried over from another call, whose constants may have changed)
     from .c02 import splitting_clock
     splitting_clock(repo, run, rule_id="C01.9")
+    # ... and its stage clock is the integrator's own object: an in-place `+=` on `asarray(initial_time)` advances the CALLER's time when that is a 0-d array
+    from .common import args_unmodified
+    args_unmodified(repo, run, "C01.12", "desolver/integrators/integrator_types.py", ["ExplicitSymplecticIntegrator.step", "ExplicitSymplecticIntegrator.__call__",
+                                                                                     "RungeKuttaIntegrator.step", "RungeKuttaIntegrator.__call__"],
+                    "the step routines of the integrators")
     # 'Richardson wrappers with 2..5 levels': the class handed out for (basis, levels) is the one built for exactly those arguments
     from .common import instance_tables_are_class_tables
     instance_tables_are_class_tables(repo, run, "C01.11")
